@@ -637,3 +637,90 @@ def keyword_lattice(ctx):
                     if type_of(a_) != type_of(b_) or any(not compare_elem(x_, y_, 10.0) for x_, y_ in zip(_canon(a_, len(rows)), _canon(b_, len(rows)))):
                         bad.append((desc, f"omitting {[p.name for p in dflt]} differs from passing the documented defaults {[p.default for p in dflt]}", f"default:{name}"))
     return bad, {"keyword_calls": n}
+
+
+# ------------------------------------------------------------------------------------------------ _wrap_result called directly, exhaustively
+def wrap_lattice(ctx):
+    """`_wrap_result` of every backend (object, NumPy, Awkward array, Awkward record, SymPy) called DIRECTLY with every declared result
+    shape that can occur ([az], [az, None], [az, lon], [az, lon, None], [az, lon, tmp] over all coordinate types), every stored system
+    of the handler `self` and both flavors of the class passed in: result class (backend, flavor, dimension), coordinate system and the
+    SOURCE of every coordinate (raw tuple element r_i or a stored coordinate of self passed through) compared exactly with the Lean
+    model `wrapVec` (GlueSym request kind W).  This is the whole finite lattice, every run.  -> (bad, stats)"""
+    import awkward as ak
+    import sympy
+    import vector.backends.sympy as VS
+    from vector import _methods as M
+    AZ = {"xy": M.AzimuthalXY, "rhophi": M.AzimuthalRhoPhi}
+    LON = {"z": M.LongitudinalZ, "theta": M.LongitudinalTheta, "eta": M.LongitudinalEta}
+    TMP = {"t": M.TemporalT, "tau": M.TemporalTau}
+    shapes = []
+    for a in AZ:
+        shapes.append(([AZ[a]], f"az={a}"))
+        shapes.append(([AZ[a], None], f"az={a},none"))
+        for l_ in LON:
+            shapes.append(([AZ[a], LON[l_]], f"az={a},lon={l_}"))
+            shapes.append(([AZ[a], LON[l_], None], f"az={a},lon={l_},none"))
+            for t_ in TMP:
+                shapes.append(([AZ[a], LON[l_], TMP[t_]], f"az={a},lon={l_},tmp={t_}"))
+    reqs, reals = [], []
+    n = 3
+
+    def src_name(val, table):
+        for k, v in table.items():
+            if abs(float(val) - v) < 1e-9:
+                return k
+        return f"?{float(val)}"
+    for tag in ("", "N.", "A.", "S."):      # (single Awkward records: see the type lattice in registered mode; unregistered is a known finding)
+        for fl in "gm":
+            for sig in C.ALLSIGS:
+                names = C.signames(sig)
+                stored = {f"{nm}1": 11.0 + j for j, nm in enumerate(names)}
+                raw = {f"r{i}": 101.0 + i for i in range(4)}
+                table = dict(stored, **raw)
+                if tag == "S.":
+                    syms = [sympy.Symbol(f"{nm}1", real=True) for nm in names]
+                    az = {"xy": VS.AzimuthalSympyXY, "rhophi": VS.AzimuthalSympyRhoPhi}[sig[0]](syms[0], syms[1])
+                    kw = {"azimuthal": az}
+                    if len(sig) >= 2:
+                        kw["longitudinal"] = {"z": VS.LongitudinalSympyZ, "theta": VS.LongitudinalSympyTheta, "eta": VS.LongitudinalSympyEta}[sig[1]](syms[2])
+                    if len(sig) == 3:
+                        kw["temporal"] = {"t": VS.TemporalSympyT, "tau": VS.TemporalSympyTau}[sig[2]](syms[3])
+                    self_ = getattr(VS, ("Momentum" if fl == "m" else "Vector") + f"Sympy{len(sig) + 1}D")(**kw)
+                else:
+                    self_ = operand(tag, fl, sig, [[11.0 + j for j in range(len(names))]] * n)
+                for flag in (0, 1):
+                    cls = type(self_).MomentumClass if flag else type(self_).GenericClass
+                    for returns, spec in shapes:
+                        width = 2 + sum(1 for r_ in returns[1:] if r_ is not None)
+                        if tag == "S.":
+                            result = tuple(sympy.Symbol(f"r{i}", real=True) for i in range(width))
+                        elif tag in ("N.",):
+                            result = tuple(numpy.full(n, 101.0 + i) for i in range(width))
+                        elif tag == "A.":
+                            result = tuple(ak.Array(numpy.full(n, 101.0 + i), behavior=self_.behavior) for i in range(width))
+                        else:
+                            result = tuple(101.0 + i for i in range(width))
+                        reqs.append(f"W {spec} {tag}{symobj.vtoken(fl, sig, 1)} {flag}")
+                        try:
+                            out = self_._wrap_result(cls, result, list(returns), 1)
+                            if tag == "S.":
+                                osig = __import__("harness.c08", fromlist=["sym_sig"]).sym_sig(out)
+                                coords = list(out.azimuthal.elements) + (list(out.longitudinal.elements) if hasattr(out, "longitudinal") else []) + \
+                                    (list(out.temporal.elements) if hasattr(out, "temporal") else [])
+                                srcs = [str(c_) for c_ in coords]
+                                desc = f"-> S.{'m' if isinstance(out, vector.Momentum) else 'g'}{len(osig) + 1} {osig[0]} {osig[1] if len(osig) > 1 else '-'} {osig[2] if len(osig) > 2 else '-'}"
+                            else:
+                                ev_ = _canon(out, n)[0]
+                                osig = sig_from_names(ev_[1])
+                                srcs = [src_name(v_, table) for v_ in ev_[2]]
+                                t_ = type_of(out)
+                                desc = t_.split("::")[0].strip() if "::" in t_ else t_
+                            reals.append(f"{desc} :: " + " | ".join(srcs))
+                        except Exception as e:  # noqa: BLE001
+                            reals.append("!! " + type(e).__name__)
+    model = leanio.run_driver("GlueSym", reqs, build=["VectorModel.Gen.Exec.All", "VectorModel.Exec.Sym", "VectorModel.Glue.Methods"])
+    bad = []
+    for q, a, b in zip(reqs, reals, model):
+        if a.replace("R.", "A.") != b.replace("R.", "A."):
+            bad.append((q, f"real {a} ; rule {b}", "wrap:" + q.split()[2].split(".")[0] + ":" + q.split()[1]))
+    return bad, {"wrap_result_calls": len(reqs)}
